@@ -31,6 +31,19 @@ case "$ID" in
     [ $rc -le 1 ] || { echo "check.sh: simulator exited with $rc (harness error)" >&2; exit 2; }
     exit $rc
     ;;
+  C05)
+    [ -f "$VERIF/sim05/Cargo.lock" ] || cp /repo/Cargo.lock "$VERIF/sim05/Cargo.lock" || exit 2
+    ( cd "$VERIF/sim05" && cargo build --release --offline --target-dir "$VERIF/sim/target" ) >"$VERIF/sim05/build.log" 2>&1 || {
+      echo "check.sh: building the C05 simulator against /repo failed (harness error, no verdict):" >&2
+      grep -E "^error" -A12 "$VERIF/sim05/build.log" | head -60 >&2
+      exit 2
+    }
+    if [ "${1:-}" = "--replay" ]; then exec "$VERIF/sim/target/release/dst-sim05" --replay "$2" --verif-dir "$VERIF"; fi
+    "$VERIF/sim/target/release/dst-sim05" --tier "$TIER" --seed "$SEED" --verif-dir "$VERIF"
+    rc=$?
+    [ $rc -le 1 ] || { echo "check.sh: simulator exited with $rc (harness error)" >&2; exit 2; }
+    exit $rc
+    ;;
   C16)
     [ -f "$VERIF/sim16/Cargo.lock" ] || cp /repo/Cargo.lock "$VERIF/sim16/Cargo.lock" || exit 2
     ( cd "$VERIF/sim16" && cargo build --release --offline --target-dir "$VERIF/sim/target" ) >"$VERIF/sim16/build.log" 2>&1 || {
@@ -48,7 +61,7 @@ case "$ID" in
     exec python3 "$VERIF/sim_py/c17_check.py" --tier "$TIER" --seed "$SEED" "$@"
     ;;
   *)
-    echo "usage: check.sh <C16|C17|C18> <quick|thorough> [--replay file]" >&2
+    echo "usage: check.sh <C05|C16|C17|C18> <quick|thorough> [--replay file]" >&2
     exit 2
     ;;
 esac
